@@ -288,6 +288,8 @@ class TD3(ContBase):
     bootstrap = ("qt1_next", "qt2_next")
     batch_args = (0, 1, 2, 3, 4, 6)
 
+    concrete_in_C = (0, 1, 3, 6)  # the next action passes through the target network
+
     def build(self, seed):
         return (zoo.double_q(D, A, (2,), seed), zoo.double_q(D, A, (2,), seed + 5))
 
@@ -463,6 +465,7 @@ class TD7Critic(ContBase):
 
     bootstrap = ("qt1_next", "qt2_next")
     batch_args = (0, 1, 2, 3, 4, 6)
+    concrete_in_C = (0, 1, 3, 6)  # the next action passes through the networks too
     b1 = False
 
     def build(self, seed):
